@@ -118,6 +118,30 @@ def huawei_batch_blocks():
     return f
 
 
+def huawei_single():
+    """MSTP: `instance N vlan <list>` inside `stp region-configuration` (logic `single`: the key is the instance, at most one line of the key
+    is added and one removed per run; `undo instance N` unmaps every VLAN of the instance)"""
+    pfx, block = "instance 1 vlan", "stp region-configuration"
+
+    def build(lines):
+        return od([(block, od([("region-name r1", od())] + [(pfx + " " + ln, od()) for ln in lines]))])
+
+    def lex(path):
+        c = path[-1]
+        if c in (block, "quit", "region-name r1"):
+            return None
+        if c == "undo instance 1":
+            return {"op": "delall", "toks": []}
+        if c.startswith("undo " + pfx + " "):
+            return {"op": "del", "toks": lex_ranges(c[len("undo " + pfx + " "):])}
+        if c.startswith(pfx + " "):
+            return {"op": "add", "toks": lex_ranges(c[len(pfx + " "):])}
+        return {"op": "other", "toks": [], "text": c}
+    f = Family("huawei stp instance (single)", "Huawei CE6870", build, lex, " ")
+    f.single = True
+    return f
+
+
 def cisco_vlan_blocks(name, model, catalyst):
     """global VLAN database of IOS / NX-OS: `vlan <list>` lines plus `vlan N` blocks with a name.  A Catalyst shows a VLAN that has a
     block only as that block (not in the list line); a Nexus lists it in the line as well.  The device's VLAN set is the union."""
@@ -141,6 +165,7 @@ def cisco_vlan_blocks(name, model, catalyst):
 
 FAMILIES = [
     huawei_batch_blocks(),
+    huawei_single(),
     cisco_vlan_blocks("catalyst vlan lists + vlan blocks", "Cisco Catalyst 2960", True),
     cisco_vlan_blocks("nexus vlan lists + vlan blocks", "Cisco Nexus 9336", False),
     huawei_family("huawei trunk allow-pass (multi_all)", "port trunk allow-pass vlan", "interface if1", ("port link-type trunk",)),
@@ -189,6 +214,11 @@ def run(ctx):
             return lib.cisco_collapse_vlandb(S, not catalyst)
 
         def observe(tag, so, sn, lo, ln):
+            if getattr(fam, "single", False):
+                # the logic handles one added and one removed line per run (it asserts so): other shapes are outside its contract
+                a, b = [x for x in ln if x not in lo], [x for x in lo if x not in ln]
+                if len(a) > 1 or len(b) > 1:
+                    return
             if getattr(fam, "blocks", False) == "catalyst":
                 # a VLAN with a block is NOT in the list lines (it moves between the two spellings from old to new)
                 bo = sorted(rnd.sample(sorted(so), rnd.randint(0, min(2, len(so))))) if so else []
